@@ -41,6 +41,9 @@ def strategy(tier):
     return st.fixed_dictionaries({
         "prog": prog, "seeds": seeds, "n_initial": st.integers(0, 2), "reuse_streams": st.booleans(),
         "long_lived_producers": st.sampled_from([False, False, False, False, True]),
+        "drive2": st.sampled_from(["start", "start", "steps", "bounded"]), "k2": st.integers(1, 6),
+        "reinit_listener": st.sampled_from([None, None, "START_REPLICATION", "STARTING", "START", "TIME_CHANGED",
+                                            "WARMUP"]),
         "prior": st.fixed_dictionaries({
             "kind": st.sampled_from(PRIORS), "k": st.integers(1, 12), "seeds": seeds, "same_seeds": st.booleans(),
             "other_rep": st.booleans(), "frac": st.integers(1, 9)}),
@@ -54,20 +57,59 @@ def _add_initial(h, n):
         h.sim.add_initial_method(h.model, "initial", idx=i)
 
 
-def _fresh_run(prog, seeds, n_initial=0, reuse=False, llp=False):
+def _fresh_run(prog, seeds, n_initial=0, reuse=False, llp=False, case=None):
+    case = case or {}
     h = Harness(prog)
     stoch.install(h.model, seeds, reuse_streams=reuse, long_lived_producers=llp)
     _add_initial(h, n_initial)
     try:
         h.initialize()
         after_init = (enc_obs(h.sim.simulator_time), h.sim.eventlist().size())
-        err = h.run_piece(["start"])
+        _listener_reinit(h, case)
+        err = _drive(h, prog, case)
         d = stoch.full_digest(h)
         d["reinit_log"] = list(h.model.reinit_log)
         d["start_err"] = repr(err) if err else None
     finally:
         leaked = h.finish()
     return d, after_init, leaked
+
+
+def _drive(h, prog, case):
+    """drive the replication under test to its end: start, or k single steps first, or a bounded run first"""
+    d = case.get("drive2", "start")
+    err = None
+    if d == "steps":
+        for _ in range(case.get("k2", 1)):
+            h.run_piece(["step"])
+    elif d == "bounded":
+        h.run_piece(["run_up_to_incl", _bound(prog, prog["rep"], case.get("k2", 1))])
+    from pydsol.core.simulator import RunState
+    for _ in range(2):
+        if h.sim.run_state != RunState.ENDED:
+            err = h.run_piece(["start"])
+    return err
+
+
+def _listener_reinit(h, case):
+    """a listener of the given simulator notification tries to initialize the simulator (must be refused)"""
+    name = case.get("reinit_listener")
+    if not name:
+        return
+    model = h.model
+    sim = h.sim
+    prev = h.rec.hooks.get(name)
+
+    def hook(entry):
+        if prev is not None:
+            prev(entry)
+        if len(model.reinit_log) < 3:
+            try:
+                sim.initialize(model, sim.replication)
+                model.reinit_log.append("accepted@" + name)
+            except Exception as e:
+                model.reinit_log.append(type(e).__name__)
+    h.rec.hooks[name] = hook
 
 
 def _strip_reinit(prog):
@@ -100,7 +142,10 @@ def run_case(case):
     llp = bool(case.get("long_lived_producers"))
     if llp:
         out.label("long-lived-producers")
-    want, want_init, leaked = _fresh_run(prog, case["seeds"], n_init, reuse, llp)
+    want, want_init, leaked = _fresh_run(prog, case["seeds"], n_init, reuse, llp, case)
+    out.label("drive2=" + case.get("drive2", "start"))
+    if case.get("reinit_listener"):
+        out.label("reinit-from-listener")
     if leaked:
         out.fail("thread-leak", "fresh run")
 
@@ -157,7 +202,8 @@ def run_case(case):
         from pydsol.core.simulator import RunState, ReplicationState
         if h.sim.run_state != RunState.INITIALIZED or h.sim.replication_state != ReplicationState.INITIALIZED:
             out.fail("state-after-initialize", [h.sim.run_state.name, h.sim.replication_state.name])
-        err = h.run_piece(["start"])
+        _listener_reinit(h, case)
+        err = _drive(h, prog, case)
         got = stoch.full_digest(h)
         got["reinit_log"] = list(h.model.reinit_log)
         got["start_err"] = repr(err) if err else None
@@ -192,7 +238,8 @@ def run_case(case):
     if want["reinit_log"] and not out.disc:
         out.label("reinit-attempted")
         p2 = _strip_reinit(prog)
-        w2, _, _ = _fresh_run(p2, case["seeds"], n_init, reuse, llp)
+        c2 = dict(case, reinit_listener=None)
+        w2, _, _ = _fresh_run(p2, case["seeds"], n_init, reuse, llp, c2)
         for key in ("trace", "clock", "state", "draws", "notifications", "stats"):
             if w2.get(key) != want.get(key):
                 out.fail("reinit-attempt-changed-" + key, {"len": [len(str(w2.get(key))), len(str(want.get(key)))]})
